@@ -193,9 +193,15 @@ def gen(rng, shape=None):
     else:
         n = rng.randint(2, 6)
         pts, prev = [], s
+        # waypoints with structure (added after seed C11b: a polyline through the origin): the origin itself, points on
+        # an axis or a coordinate plane, and the start of the path again -- values a test on the converted vertex mistakes
+        special = rng.random() < 0.5
         for _ in range(n):
             while True:
                 p = [round(prev[0] + rng.uniform(-25, 25), 2), round(prev[1] + rng.uniform(-25, 25), 2), round(prev[2] + rng.uniform(-4, 4), 2)]
+                if special:
+                    k = rng.randrange(6)
+                    p = [[0.0, 0.0, 0.0], [p[0], 0.0, 0.0], [0.0, p[1], 0.0], [0.0, 0.0, p[2]], list(s), [p[0], p[1], 0.0]][k]
                 if math.dist(p, prev) >= 4 * res:
                     break
             pts.append(p)
